@@ -24,6 +24,7 @@ type cancelSpec struct {
 	Via     string `json:"via"`
 	Cmd     string `json:"cmd"`
 	Jitter  int    `json:"jitter_us"`
+	Allow   bool   `json:"allow_failure"`
 }
 
 // runCancelCase runs one injection in its own process. Returns "", "suspect" or "crash".
@@ -122,7 +123,7 @@ func c12(c *h.Ctx) {
 	var specs []cancelSpec
 	rnd := c.Rand("specs")
 	add := func(sp cancelSpec) { sp.Idx = len(specs); specs = append(specs, sp) }
-	points := []string{"before-run", "before-hook", "during-command", "between-commands", "store", "after-finished"}
+	points := []string{"before-run", "before-hook", "during-command", "between-commands", "store", "after-finished", "after-hook"}
 	for _, mode := range []string{"direct", "pipeline"} {
 		for _, pt := range points {
 			for k := 0; k <= 4; k++ {
@@ -155,7 +156,8 @@ func c12(c *h.Ctx) {
 										continue
 									}
 								}
-								add(cancelSpec{K: k, W: w, Mode: mode, Point: pt, Cancels: cn, Via: via, Cmd: cmd, Jitter: rnd.Intn(3000)})
+								// tasks that tolerate failing commands are interrupted like any other
+								add(cancelSpec{K: k, W: w, Mode: mode, Point: pt, Cancels: cn, Via: via, Cmd: cmd, Jitter: rnd.Intn(3000), Allow: len(specs)%3 == 1})
 							}
 						}
 					}
@@ -201,7 +203,7 @@ func c12(c *h.Ctx) {
 	h.Par(nfree, 8, func(i int) {
 		r := h.NewRand(c.Seed*31+int64(i), "c12free")
 		mode := []string{"direct", "pipeline"}[r.Intn(2)]
-		sp := cancelSpec{Idx: 100000 + i, K: r.Range(1, 4), W: r.Intn(3), Mode: mode, Point: "free", Cancels: []string{"once", "twice", "concurrent"}[r.Intn(3)], Via: []string{"runner", "scheduler"}[r.Intn(2)], Cmd: []string{"sleep", "busy"}[r.Intn(2)], Jitter: r.Intn(30000)}
+		sp := cancelSpec{Idx: 100000 + i, K: r.Range(1, 4), W: r.Intn(3), Mode: mode, Allow: r.Chance(30), Point: "free", Cancels: []string{"once", "twice", "concurrent"}[r.Intn(3)], Via: []string{"runner", "scheduler"}[r.Intn(2)], Cmd: []string{"sleep", "busy"}[r.Intn(2)], Jitter: r.Intn(30000)}
 		if mode == "direct" {
 			sp.W, sp.Via = 0, "runner"
 		}
